@@ -30,6 +30,7 @@ type Ctx struct {
 	nsOnlyFields     bool // ruleCollectBeforeUse: only the per-resource sets (map fields), not the cross-block name spaces
 	dispatch         map[string]*types.Func
 	pasteR           *pasteRoles
+	recoverFns       map[*types.Func]bool
 }
 
 type propFunc func(c *Ctx)
